@@ -24,6 +24,8 @@ type Event struct {
 	Pid  string // pid field (LOGIN record); may be unparsable
 	Res  string // success | fail | unknown
 	Args bool
+	// OldSes is the old-ses field of a LOGIN record (default: unset)
+	OldSes string
 }
 
 // Group is the record group of one kernel event.
@@ -88,8 +90,12 @@ func (g *Gen) Lines(e Event) Group {
 			res = " res=0"
 		}
 		gr.Shape = "LOGIN"
-		gr.Lines = []string{fmt.Sprintf("type=LOGIN msg=%s: pid=%s uid=0 old-auid=4294967295 auid=1000 tty=(none) old-ses=4294967295%s%s",
-			st, e.Pid, sesField(e.Sess), res)}
+		old := e.OldSes
+		if old == "" {
+			old = "4294967295"
+		}
+		gr.Lines = []string{fmt.Sprintf("type=LOGIN msg=%s: pid=%s uid=0 old-auid=4294967295 auid=1000 tty=(none) old-ses=%s%s%s",
+			st, e.Pid, old, sesField(e.Sess), res)}
 		if e.Args {
 			// a LOGIN record has no arguments; an abstract "args" LOGIN is rendered the same
 		}
